@@ -1,23 +1,23 @@
-\* generation (thorough tier): 2 accounts, 3 candidates with all 6 vote sets, two parameter votes (STAKINGMIN, NAMEPRICE), one name, transfers, 3 transactions
+\* generation (thorough tier), failed blocks: the 2-account model of Gen_Governance.cfg with one DiscardBlock
 SPECIFICATION Spec
 CONSTANTS
   Accts <- A2
   Cands <- C3
   CandKey <- C3Key
   CandId <- C3Id
-  BpVoteSets <- VS6
-  DaoIssues <- D2
-  DaoVals <- D2Vals
+  BpVoteSets <- VS4
+  DaoIssues <- D1
+  DaoVals <- D1Vals
   Names <- N1
   StakeAmts = {10000, 20000}
-  PayAmts = {1, 2}
-  XferAmts = {15000}
+  PayAmts = {0, 1}
+  XferAmts = {}
   InitBal = 30001
   DefaultParam <- Defaults
   StakingDelay = 2
   VotingDelay = 2
   MaxHeight = 5
-  MaxDiscards = 0
+  MaxDiscards = 1
   MaxOps = 3
 VIEW viewAbs
 ACTION_CONSTRAINT GenLog
